@@ -2,7 +2,7 @@
 
 use super::good_lp::{collect_good_lp_duals, solve_with_good_lp};
 use super::{LpSolution, SolverError, find_invalid_variables};
-use crate::math::VariableType;
+use crate::math::{OptimizationType, VariableType};
 use crate::transformers::LinearModel;
 use ::clarabel::solver::SolverStatus;
 use ::good_lp::SolutionWithDual;
@@ -65,7 +65,15 @@ pub fn solve_real_lp_problem_clarabel(lp: &LinearModel) -> Result<LpSolution<f64
                 solution.inner().status,
                 SolverStatus::DualInfeasible | SolverStatus::AlmostDualInfeasible
             ) {
-                return Err(SolverError::Unbounded);
+                // ... provided the primal has a feasible point at all: a model that is
+                // primal AND dual infeasible gets the same status. A zero objective is
+                // always dual feasible, so solving for feasibility alone decides it.
+                let mut feasibility = lp.clone();
+                feasibility.set_objective(vec![0.0; lp.variables().len()], OptimizationType::Satisfy);
+                return match solve_real_lp_problem_clarabel(&feasibility) {
+                    Err(SolverError::Infeasible) => Err(SolverError::Infeasible),
+                    _ => Err(SolverError::Unbounded),
+                };
             }
             Ok(())
         },
